@@ -15,7 +15,13 @@ pub trait Configuration {
         ensures r == Self::spec_leaf_with_epoch(commitment, epoch);
     fn empty_node_hash() -> (r: AzksValue)
         ensures r == Self::spec_empty_node();
-    fn empty_label() -> NodeLabel;
+    spec fn spec_empty_label() -> NodeLabel;
+    spec fn spec_parent(lv: AzksValue, ll: Seq<u8>, rv: AzksValue, rl: Seq<u8>) -> AzksValue;
+    spec fn spec_label_value(l: NodeLabel) -> Seq<u8>;
+    fn empty_label() -> (r: NodeLabel)
+        ensures r == Self::spec_empty_label();
+    fn compute_parent_hash_from_children(left_val: &AzksValue, left_label: &[u8], right_val: &AzksValue, right_label: &[u8]) -> (r: AzksValue)
+        ensures r == Self::spec_parent(*left_val, left_label@, *right_val, right_label@);
 }
 pub trait Database {}
 #[verifier::external_body]
@@ -145,4 +151,16 @@ pub proof fn lemma_empty_multiset<T>()
 {
     broadcast use vstd::seq_lib::group_to_multiset_ensures;
     assert(Seq::<T>::empty().to_multiset() =~= Multiset::<T>::empty());
+}
+
+// ---- hash recomputation (what a parent stores is the parent hash of what node_value reports for its two children)
+pub open spec fn child_label<TC: Configuration>(c: Option<TreeNode>) -> NodeLabel {
+    match c { Some(n) => n.label, None => TC::spec_empty_label() }
+}
+pub open spec fn parent_hash<TC: Configuration>(l: Option<TreeNode>, r: Option<TreeNode>, mode: NodeHashingMode) -> AzksValue {
+    TC::spec_parent(node_value::<TC>(l, mode), TC::spec_label_value(child_label::<TC>(l)), node_value::<TC>(r, mode), TC::spec_label_value(child_label::<TC>(r)))
+}
+// what get_child_node answers for a child label (absent label -> None; a readable child -> that node)
+pub open spec fn child_of(st: int, c: Option<NodeLabel>, epoch: u64) -> Option<TreeNode> {
+    match c { Some(l) => match stored(st, l, epoch) { Ok(n) => Some(n), Err(_) => None }, None => None }
 }
